@@ -123,6 +123,15 @@ def _variants(n_steps):
         c["noise"].update(init_position_std_km=1e-5, init_velocity_std_km_p_sec=1e-8)
 
     var("filter_sp_tight_prior", tight_sp_filter)
+
+    # ... the same with target 10001 as the ONLY target (no additions either): its estimate's jobs are then the last to
+    # run before its own next truth job, so nothing else overwrites what the force model may remember
+    def single_target_tight(c):
+        tight_sp_filter(c)
+        c["engines"][0]["targets"] = [t for t in c["engines"][0]["targets"] if t["id"] == 10001]
+        c["events"] = [e for e in c["events"] if e["event_type"] == "impulse"]
+
+    var("single_target_sp_tight_prior", single_target_tight)
     var("no_background", lambda c: c.update(observation={"background": False, "realtime_observation": True}))
     var("no_realtime_observation", lambda c: c.update(observation={"background": True, "realtime_observation": False}))
     for a in range(1, n_steps):
